@@ -662,8 +662,10 @@ def main():
                 continue
             for pat, es in efiles + [("big", b) for b in big_env]:
                 full = len(es) <= NENV
-                if wrap == 31 and full and ((len(es) > 3 and v != 1) or (len(es) > 2 and v == 4)):
-                    continue     # modes 1-3 on the files of n <= 3 entries (the first on all of them), the free-running mode on n <= 2
+                if wrap == 31 and full and (len(es) > NENV - 1 or (len(es) > 2 and v == 4)):
+                    continue     # the parked modes on the files of n <= 3 entries, the free-running mode on n <= 2
+                if wrap == 30 and full and len(es) > NENV - 1 and v != 1:
+                    continue     # every layout on n <= 3, the relative symbolic link on all files
                 for (l, kind, exp, txt) in env_cases(es, full):
                     lines.append("%d %d %s" % (wrap, v, l))
                     meta.append((v, kind, exp, txt))
@@ -692,9 +694,10 @@ def main():
             judge_walk(op, "cmsys" if op == 4 else "bbs", wl[(v, op)], io, wm[(v, op)],
                        (", the index a %s" if wrap == 30 else " while %s") % table[v], kp="%s-%d-" % (kname, v))
         c.sample({"op": kname, "case": lines[-1][:160], "impl": io[-1][:80]})
-    c.cov["exhaustive_parts"].append("every file of n <= %d entries reached through each path layout %s with the article count taken by first access, and (n <= 3: the parked modes, n <= 2: free-running goroutines, n <= %d: the parked append) "
-                                     "with another operation of the same process inside the index %s: bbs.LoadGeneralArticles with every cursor class, FindRecordStartIdx, GetRecord, both page walks" % (
-                                         NENV, sorted(LAYOUTS.values()), NENV, sorted(MODES)))
+    c.cov["exhaustive_parts"].append("every file of n <= %d entries (n <= %d under the relative symbolic link) reached through each path layout %s with the article count taken by first access, and "
+                                     "(n <= %d: the parked modes, n <= 2: free-running goroutines) with another operation of the same process inside the index %s: "
+                                     "bbs.LoadGeneralArticles with every cursor class, FindRecordStartIdx, GetRecord, both page walks" % (
+                                         NENV - 1, NENV, sorted(LAYOUTS.values()), NENV - 1, sorted(MODES)))
 
     # ---------------------------------------------------------------- random large files
     nfiles = 60 if thorough else 10
@@ -994,6 +997,7 @@ def main():
                   "while the cursor's entry (alone / with its neighbours / with everything after it in the listing direction) or any single entry is deleted between pages; "
                   "site configurations: the lookups, both walks and the bbs cursor calls again under FN_SAFEDEL=\".d\" and \".deleted\" (and one more prefix length / all of 2..8 in the thorough tier) over every file of n <= %d entries "
                   "whose names differ only in the leading digits of the time (10^4 .. 10^8 seconds apart, one shared suffix), with cursors / looked-up names of the same shape, and Filename_t.Eq itself under every prefix length; "
+                  "environment: every file of n <= 3 (thorough 4; n <= 4 / 5 under the relative symbolic link) entries and one of 130 under each of 5 path layouts of the index (count by first access) and with an append / delete / lookup of the same process parked inside the index or four goroutines running the lookup at once; "
                   "large pages: GetRecords counts and page sizes 127..258, n-1, n, n+1 over %d files of 130..385 (thorough: ..1000) entries, every summary compared with the stored record after the call returned; a case is non-trivial if it is a distinct (configuration, file, cursor, direction) / (configuration, file, page size, direction) that returned" % (NMAX, nfiles, NCUR_BBS, NCFG, nbig),
              assumptions=["cursor time and cursor file name are consistent (every caller in ptt/bbs derives both from one file name; DeserializeArticleIdxStr enforces it)",
                           "creation times in [0, 2^31): Time4 subtraction is modelled with wrap32",
@@ -1002,6 +1006,8 @@ def main():
                           "the index file is quiescent during a lookup; os file I/O, strconv.Atoi and encoding/binary are exercised, not verified",
                           "of the site configuration only FN_SAFEDEL is varied (set through its configuration key and ptttype.InitConfig()): prefix lengths 2 and 8 always, 3..7 sampled (thorough: all); every other key keeps its default",
                           "GetRecords is exercised up to 1000 records in one call (quick: 386); larger counts rest on C06_getrecords_eq_scan and the model correspondence only",
+                          "path layout and overlap (validation, not theorem): the index reached through a regular file, symbolic links (relative, into another directory, a chain of two) and a second hard link with the board's count obtained by first access; another operation of the SAME process parked inside the index at the schedule points append.locked / flock.tabled / find.opened with nothing written yet, and four free-running goroutines; kernel path resolution and goroutine parallelism are not in the Coq model (C06_env_independent is about the model), symbolic-link directories and overlap at other points are not exercised",
+                          "on first access the error cache.SetBTotal returns AFTER storing the count when the last entry has no parsable creation time is ignored by the harness",
                           "bbs-level cursor text round trip (Serialize/DeserializeArticleIdxStr via the article id of C13) is validated by the bbs walk correspondence, proved only in C13"])
 
 
